@@ -664,7 +664,20 @@ impl Gen {
         }
         push_char(&mut out, *self.rng.pick(WIDE));
         let after = self.rng.range(0, cols - wc - 2);
-        for _ in 0..after {
+        // half of the time a SECOND wide character follows closely (0..2 narrow cells between): an edit that starts
+        // on a half of the first one can then end on a half of the second one
+        let mut span: Option<u64> = None;
+        let mut used = 0;
+        if after >= 2 && self.rng.chance(1, 2) {
+            let k = self.rng.range(0, 2.min(after - 2));
+            for _ in 0..k {
+                out.push(self.ascii());
+            }
+            push_char(&mut out, *self.rng.pick(WIDE));
+            used = k + 2;
+            span = Some(k + 2);
+        }
+        for _ in used..after {
             if self.rng.chance(1, 6) && after >= 2 {
                 push_char(&mut out, *self.rng.pick(WIDE));
             } else {
@@ -677,7 +690,13 @@ impl Gen {
         if self.rng.chance(1, 4) {
             out.extend_from_slice(b"\x1b[45m");
         }
-        let n = *self.rng.pick(&[1u64, 1, 2, 2, 3, cols, cols + 1]);
+        let mut n = *self.rng.pick(&[1u64, 1, 2, 2, 3, cols, cols + 1]);
+        if let Some(sp) = span {
+            // from the second half of the first wide character to the first half of the second one, give or take
+            if self.rng.chance(1, 2) {
+                n = *self.rng.pick(&[sp, sp, sp + 1, sp.saturating_sub(1).max(1)]);
+            }
+        }
         match self.rng.below(12) {
             0 | 1 => out.extend_from_slice(format!("\x1b[{n}@").as_bytes()),
             2 | 3 => out.extend_from_slice(format!("\x1b[{n}P").as_bytes()),
